@@ -189,6 +189,11 @@ func (ss *segmentStack) Stats() *SegmentStackStats {
 		nk, nv := seg.NumKeyValBytes()
 		rv.CurBytes += nk + nv
 	}
+	for _, childSegStack := range ss.childSegStacks {
+		if childSegStack != nil {
+			childSegStack.Stats().AddTo(rv)
+		}
+	}
 	return rv
 }
 
